@@ -29,24 +29,31 @@ func init() {
 			e, ok := v.(*ssa.Extract)
 			return ok && e.Index == 1 && isXLookup(e.Tuple)
 		}, false)
+		// truth of a value under the assumption "the exclusive owner is another transaction"
+		ownerCmp := func(v ssa.Value) (bool, bool) {
+			base, neg := condBase(v)
+			bo, ok := base.(*ssa.BinOp)
+			if !ok || (bo.Op != token.EQL && bo.Op != token.NEQ) {
+				return false, false
+			}
+			own := func(x ssa.Value) bool { return DependsOn(x, isXLookup) }
+			me := func(x ssa.Value) bool { return DependsOn(x, IsCallTo(getID)) }
+			if !((own(bo.X) && me(bo.Y)) || (own(bo.Y) && me(bo.X))) {
+				return false, false
+			}
+			val := bo.Op == token.NEQ
+			if neg {
+				val = !val
+			}
+			return val, true
+		}
 		ownerIsOther := func(b *ssa.BasicBlock, succ int) bool {
 			i := blockIf(b)
 			if i == nil {
 				return false
 			}
-			v, neg := condBase(i.Cond)
-			bo, ok := v.(*ssa.BinOp)
-			if !ok || (bo.Op != token.EQL && bo.Op != token.NEQ) {
-				return false
-			}
-			own := func(x ssa.Value) bool { return DependsOn(x, isXLookup) }
-			me := func(x ssa.Value) bool { return DependsOn(x, IsCallTo(getID)) }
-			if !((own(bo.X) && me(bo.Y)) || (own(bo.Y) && me(bo.X))) {
-				return false
-			}
-			equalWhenTrue := bo.Op == token.EQL
-			binTrueOnEdge := (succ == 0) != neg
-			return binTrueOnEdge == equalWhenTrue // remove the edge on which owner == me
+			val, ok := ownerCmp(i.Cond)
+			return ok && (succ == 0) != val // remove the edge on which owner == me
 		}
 		rec := CutWhen(IsCallTo(a.TxnIsRecovery), true)
 		for _, o := range []*types.Func{a.LockShared, a.LockExclusive, a.LockUpgrade} {
@@ -56,6 +63,15 @@ func init() {
 				for s := range b.Succs {
 					if ownerIsOther(b, s) {
 						n++
+					}
+				}
+			}
+			for _, b := range fn.Blocks {
+				for _, in := range b.Instrs {
+					if ret, ok := in.(*ssa.Return); ok && len(ret.Results) > 0 {
+						if _, ok := ownerCmp(retOperand(ret, 0)); ok {
+							n++ // `return owner == me`
+						}
 					}
 				}
 			}
@@ -69,7 +85,10 @@ func init() {
 			cuts := []EdgeCut{rec, okTrue, ownerIsOther}
 			wit := (&PathQ{Fn: fn, Cut: cuts, Target: isEffect}).FromEntry()
 			r.Check(wit == nil, o.Name()+":no-grant-against-foreign-X", "no lock-table / lock-set update while another transaction holds the row exclusively", "path: "+w.DescribeWitness(fn, wit))
-			wit = (&PathQ{Fn: fn, Cut: cuts, Target: func(in ssa.Instruction) bool { return mayReturnBool(in, 0, true) }}).FromEntry()
+			wit = (&PathQ{Fn: fn, Cut: cuts, Target: func(in ssa.Instruction) bool {
+				ret, ok := in.(*ssa.Return)
+				return ok && len(ret.Results) > 0 && canBeBoolK(retOperand(ret, 0), true, map[ssa.Value]bool{}, ownerCmp)
+			}}).FromEntry()
 			r.Check(wit == nil, o.Name()+":denied-against-foreign-X", "the request is denied (`return false`) while another transaction holds the row exclusively", "`return true` reachable: "+w.DescribeWitness(fn, wit))
 		}
 	})
@@ -248,8 +267,17 @@ func init() {
 				continue
 			}
 			n++
-			cv, isConst := constOf(c.Call.Args[len(c.Call.Args)-1])
-			r.Check(isConst && constant.BoolVal(cv), "UnpinPage:dirty-page-stays-dirty"+ordinalIn(un, in, a.PageSetIsDirty), "unpinning a dirty page with isDirty=false does not clear its dirty flag", "SetIsDirty at "+w.InstrPos(in)+" can clear (or overwrite with the caller's flag) the dirty bit of a page that is already dirty: its earlier changes are then never written back")
+			// the argument is judged on each path with boolean phis resolved (`SetIsDirty(pg.IsDirty() || isDirty)`
+			// passes the constant true on the only path a dirty page can take)
+			site := in
+			wit := (&PathQ{Fn: un, Cut: []EdgeCut{dirty}, Target: func(x ssa.Instruction) bool {
+				if x != site {
+					return false
+				}
+				cv, isConst := constOf(Bound(c.Call.Args[len(c.Call.Args)-1]))
+				return !(isConst && constant.BoolVal(cv))
+			}}).FromEntry()
+			r.Check(wit == nil, "UnpinPage:dirty-page-stays-dirty"+ordinalIn(un, in, a.PageSetIsDirty), "unpinning a dirty page with isDirty=false does not clear its dirty flag", "SetIsDirty at "+w.InstrPos(in)+" can clear (or overwrite with the caller's flag) the dirty bit of a page that is already dirty: its earlier changes are then never written back")
 		}
 		r.Floor("SetIsDirty sites reachable for a dirty page in UnpinPage", n, 1)
 		// the IsDirty test exists
